@@ -12,22 +12,77 @@ from .c10 import check_task_done_pairing
 ob = Registry()
 
 
+def _nnf_disjuncts(e: ast.AST, neg: bool = False) -> list[tuple[ast.AST, bool]] | None:
+    """The literals of *e* (negated when *neg*) when it is a disjunction after pushing negations inward: (expr, negated) pairs; None when it is not a plain disjunction."""
+    if isinstance(e, ast.UnaryOp) and isinstance(e.op, ast.Not):
+        return _nnf_disjuncts(e.operand, not neg)
+    if isinstance(e, ast.BoolOp):
+        is_or = isinstance(e.op, ast.Or) != neg  # De Morgan: not (a and b) == (not a) or (not b)
+        if not is_or:
+            return None if len(e.values) > 1 else _nnf_disjuncts(e.values[0], neg)
+        out: list[tuple[ast.AST, bool]] = []
+        for v in e.values:
+            r = _nnf_disjuncts(v, neg)
+            if r is None:
+                return None
+            out.extend(r)
+        return out
+    return [(e, neg)]
+
+
 def idle_disjuncts(test: ast.AST, self_: str) -> set[str]:
-    vals = test.values if isinstance(test, ast.BoolOp) and isinstance(test.op, ast.Or) else [test]
+    """Which parts of "not idle" the test (a condition for going on waiting) covers: flag down / something started / something pending / queue non-empty.  The test may be written
+    in any and / or / not arrangement that amounts to a disjunction of those (`not (flag and not (started or pending))` is `not flag or started or pending`)."""
+    lits = _nnf_disjuncts(test)
+    if lits is None:
+        return {'?' + U(test)}
     out = set()
-    for v in vals:
+    for v, neg in lits:
         t = U(v)
-        if t == f'{self_}.events_pending':
+        if t == f'{self_}.events_pending' and not neg:
             out.add('pending')
-        elif t == f'{self_}.events_started':
+        elif t == f'{self_}.events_started' and not neg:
             out.add('started')
-        elif t.endswith('.qsize()') and 'event_queue' in t:
+        elif t.endswith('.qsize()') and 'event_queue' in t and not neg:
             out.add('qsize')
-        elif t == f'not {self_}._on_idle.is_set()':
+        elif t == f'{self_}._on_idle.is_set()' and neg:
             out.add('flag')
         else:
-            out.add('?' + t)
+            out.add('?' + ('not ' if neg else '') + t)
     return out
+
+
+def _verdict_flag(u: Unit, g, head, self_: str):
+    """`while not <flag>:` where every value of <flag> is the idle test itself (possibly handed over through copies, as a folded helper's result is): returns
+    (the test the loop amounts to, the CFG nodes where the idle test is evaluated) or None."""
+    t = head.ast.test
+    if not (isinstance(t, ast.UnaryOp) and isinstance(t.op, ast.Not) and isinstance(t.operand, ast.Name)):
+        return None
+    evals: list[ast.Assign] = []
+    seen: set[str] = set()
+
+    def follow(name: str) -> bool:
+        if name in seen:
+            return True
+        seen.add(name)
+        defs = [n for n in own_nodes(u.node) if isinstance(n, (ast.Assign, ast.AnnAssign)) and n.value is not None
+                and any(isinstance(x, ast.Name) and x.id == name for x in (n.targets if isinstance(n, ast.Assign) else [n.target]))]
+        if not defs:
+            return False
+        for d in defs:
+            if isinstance(d.value, ast.Name):
+                if not follow(d.value.id):
+                    return False
+            else:
+                evals.append(d)
+        return True
+
+    if not follow(t.operand.id) or not evals:
+        return None
+    texts = {U(d.value) for d in evals}
+    if len(texts) != 1:
+        return None
+    return ast.UnaryOp(op=ast.Not(), operand=evals[0].value), [n for d in evals for n in g.nodes_of(d)]
 
 
 @ob('C15.1', 'SHAPE/DOM', 'wait_until_idle returns normally only (a) from the final re-check loop, whose exit condition is idle-flag set ∧ nothing started ∧ nothing pending, with '
@@ -36,15 +91,20 @@ def c15_1(c: Ctx) -> None:
     u = c.unit(SVC, 'EventBus.wait_until_idle')
     g = c.cfg(u)
     self_ = u.params()[0]
-    whiles = [n for n in g.live_nodes() if n.kind == 'while' and 'flag' in idle_disjuncts(n.ast.test, self_)]
+    def loop_test(n):
+        vf = _verdict_flag(u, g, n, self_)
+        return vf[0] if vf is not None else n.ast.test
+
+    whiles = [n for n in g.live_nodes() if n.kind == 'while' and 'flag' in idle_disjuncts(loop_test(n), self_)]
     if len(whiles) != 1:
         c.fail(u, f'{len(whiles)} re-check loops on the idle flag', 'wait_until_idle does not re-check idleness before returning: it can return while new events are pending or started')
         return
     head = whiles[0]
-    dis = idle_disjuncts(head.ast.test, self_)
+    dis = idle_disjuncts(loop_test(head), self_)
+    vflag = _verdict_flag(u, g, head, self_)
     need = {'flag', 'started', 'pending'}
     if need <= dis and not any(x.startswith('?') for x in dis):
-        c.ok(where(u, head.ast), f'loop exits only when not ({U(head.ast.test)[:90]})')
+        c.ok(where(u, head.ast), f'loop exits only when not ({U(loop_test(head))[:90]})')
     else:
         extra = sorted(x for x in dis if x.startswith('?'))
         c.fail(u, f'final re-check condition lacks {sorted(need - dis)}' + (f' / has unrecognised terms {extra}' if extra else ''), 'wait_until_idle can return while the bus still has ' + '/'.join(sorted(need - dis)) + ' events', node=head.ast)
@@ -60,10 +120,18 @@ def c15_1(c: Ctx) -> None:
     # (a) false edge -> exit without suspension; body cannot leave the loop except back to the head
     p = search([(head, ())], is_target=lambda n, d: q.node_has_await(n), is_barrier=lambda n, d: n.kind == 'exit',
                edge_ok=lambda n, e, d: None if (e.is_exc or (n is head and e.label != 'false')) else d)
+    if p is None and vflag is not None:
+        # the verdict is held in a local: the idle test is evaluated where the local gets its value.  Nothing may suspend between such an evaluation and the loop test, and
+        # the loop test must not be reachable from a suspension point without a fresh evaluation in between (a stale verdict).
+        ev_ids = {n.id for n in vflag[1]}
+        for en_ in vflag[1]:
+            p = p or search([(en_, ())], is_target=lambda n, d: q.node_has_await(n), is_barrier=lambda n, d: n is head, edge_ok=lambda n, e, d: None if e.is_exc else d)
+        for an_ in [n for n in g.live_nodes() if q.node_has_await(n)]:
+            p = p or search([(an_, ())], is_target=lambda n, d: n is head, is_barrier=lambda n, d: n.id in ev_ids, edge_ok=lambda n, e, d: None if e.is_exc else d)
     if p is None:
         c.ok(where(u, head.ast), 'no suspension point between the final idle test and the return')
     else:
-        c.fail(u, 'suspension point between the final idle test and the return', 'new events can be dispatched between the last idle check and the return', node=head.ast, witness=c.path(head, p))
+        c.fail(u, 'suspension point between the final idle test and the return', 'new events can be dispatched between the last idle check and the return', node=head.ast, witness=c.path(p[0].node if p else head, p))
     p = search([(head, ())], is_target=lambda n, d: n.kind == 'exit', is_barrier=lambda n, d: n is head or n.id in {a.id for a in arms},
                edge_ok=lambda n, e, d: None if (n is head and e.label != 'true') else d)
     if p is None:
@@ -74,7 +142,8 @@ def c15_1(c: Ctx) -> None:
     raises = [n for n in g.live_nodes() if n.kind == 'raise' and any(e.exc is not None and e.exc.name == 'TimeoutError' for e in n.succ)]
     facts = Facts(lambda a: a.isidentifier(), cg=c.cg, unit=u)
     for rn in raises:
-        pth = q.guard_search(g, rn, 'timeout is not None', facts)
+        # decided by cases on the parameter: with timeout None the raise must be unreachable (a deadline derived from it is None as well)
+        pth = q.guard_search(g, rn, 'timeout is not None', facts, env={'timeout': 'N'})
         if pth is None:
             c.ok(where(u, rn.ast), '`raise TimeoutError` only when a timeout was given')
         else:
